@@ -9,6 +9,7 @@ open Grevm.Block
 def PhaseStatus : Phase → Status → Prop
   | .idle, st => st ≠ .executing ∧ st ≠ .validating
   | .reading _ _ _, st => st = .executing
+  | .fetching _ _ _ _, st => st = .executing
   | .publishing _ _ _, st => st = .executing
   | .removing _ _ _, st => st = .executing
   | .errMark _ _ _, st => st = .executing
@@ -116,7 +117,12 @@ theorem inv1_step {P : Params} {s s' : State} (h : Inv1 P s) (hs : Step P s s') 
     refine h.move i _ (s.status i) (by simp [PhaseStatus, this]) (by simp [TailTarget])
       (by simp [PhaseClock]) Iff.rfl (h.active_lt i) _ rfl rfl rfl rfl rfl rfl rfl rfl ?_
     simp [setPhase, updF_self]
-  | execReadBase i l k reads blocked hp hr =>
+  | execReadMiss i l k reads blocked hp hr =>
+    have := hst i; rw [hp] at this; simp only [PhaseStatus] at this
+    refine h.move i _ (s.status i) (by simp [PhaseStatus, this]) (by simp [TailTarget])
+      (by simp [PhaseClock]) Iff.rfl (h.active_lt i) _ rfl rfl rfl rfl rfl rfl rfl rfl ?_
+    simp [setPhase, updF_self]
+  | execFetch i l k reads blocked hp =>
     have := hst i; rw [hp] at this; simp only [PhaseStatus] at this
     refine h.move i _ (s.status i) (by simp [PhaseStatus, this]) (by simp [TailTarget])
       (by simp [PhaseClock]) Iff.rfl (h.active_lt i) _ rfl rfl rfl rfl rfl rfl rfl rfl ?_
@@ -386,5 +392,72 @@ theorem inv1_reach {P : Params} {s : State} (h : Reach P s) : Inv1 P s := by
   induction h with
   | init => exact inv1_init P
   | step _ hs ih => exact inv1_step ih hs
+
+/-- No step touches a finalized transaction. -/
+theorem step_frozen {P : Params} {s s' : State} (h1 : Inv1 P s) (hs : Step P s s') (j : TxId)
+    (hj : j < s.fin) : s'.result j = s.result j ∧ s'.status j = s.status j ∧ j < s'.fin := by
+  have hidle := h1.fin_idle hj
+  have hfin := (h1.fin_status j).mpr hj
+  have key : ∀ i, s.phase i ≠ .idle → j ≠ i := by
+    intro i hne hc; subst hc; exact hne hidle
+  cases hs with
+  | claimExec i hi hp hst =>
+    have : j ≠ i := by
+      intro hc; subst hc
+      rcases hst with h' | h' <;> rw [h'] at hfin <;> cases hfin
+    exact ⟨rfl, by simp [updF, this], hj⟩
+  | execReadMv i l k reads blocked j' e hp hr => exact ⟨rfl, rfl, hj⟩
+  | execReadMiss i l k reads blocked hp hr => exact ⟨rfl, rfl, hj⟩
+  | execFetch i l k reads blocked hp => exact ⟨rfl, rfl, hj⟩
+  | execFinishOk i w o reads blocked hp => exact ⟨rfl, rfl, hj⟩
+  | execFinishErr i e reads blocked hp => exact ⟨rfl, rfl, hj⟩
+  | publishOne i run l todo newLoc v hp hl hv => exact ⟨rfl, rfl, hj⟩
+  | endPublish i run newLoc hp => exact ⟨rfl, rfl, hj⟩
+  | removeOne i run l todo newLoc hp hl => exact ⟨rfl, rfl, hj⟩
+  | recordBlocked i run newLoc hp hb =>
+    have := key i (by rw [hp]; simp)
+    exact ⟨by simp [setPhase, updF, this], rfl, hj⟩
+  | recordRewind i run newLoc handoff hp hb hn =>
+    have := key i (by rw [hp]; simp)
+    exact ⟨by simp [setPhase, updF, this], rfl, hj⟩
+  | recordDirect i run hp hb =>
+    have := key i (by rw [hp]; simp)
+    exact ⟨by simp [updF, this], by simp [updF, this], hj⟩
+  | markErrSome i e ow l todo en hp hl hm => exact ⟨rfl, rfl, hj⟩
+  | markErrNone i e ow l todo hp hl hm => exact ⟨rfl, rfl, hj⟩
+  | markValSome i l todo en hp hl hm => exact ⟨rfl, rfl, hj⟩
+  | markValNone i l todo hp hl hm => exact ⟨rfl, rfl, hj⟩
+  | endErrMark i e ow hp =>
+    have := key i (by rw [hp]; simp)
+    exact ⟨by simp [updF, this], rfl, hj⟩
+  | tailTs i k st hp hk => exact ⟨rfl, rfl, hj⟩
+  | tailSkip i k st hp hk =>
+    have := key i (by rw [hp]; simp)
+    exact ⟨rfl, by simp [updF, this], hj⟩
+  | tailLts i k ts st hp =>
+    have := key i (by rw [hp]; simp)
+    exact ⟨rfl, by simp [updF, this], hj⟩
+  | claimVal i hp hst =>
+    have : j ≠ i := by
+      intro hc; subst hc
+      rcases hst with h' | h' <;> rw [h'] at hfin <;> cases hfin
+    exact ⟨rfl, by simp [updF, this], hj⟩
+  | valTs i r hp hr => exact ⟨rfl, rfl, hj⟩
+  | valCheck i ts done r todo conflict k hp hk => exact ⟨rfl, rfl, hj⟩
+  | endScanConflict i ts done hp => exact ⟨rfl, rfl, hj⟩
+  | endScanOk i ts done hp =>
+    have := key i (by rw [hp]; simp)
+    exact ⟨rfl, by simp [updF, this], hj⟩
+  | endValMark i hp => exact ⟨rfl, rfl, hj⟩
+  | finalize hi hp hst hg =>
+    have : j ≠ s.fin := by omega
+    exact ⟨rfl, by simp [updF, this], by show j < s.fin + 1; omega⟩
+  | commit r hc hr => exact ⟨rfl, rfl, hj⟩
+
+/-- The commit cursor never moves backwards. -/
+theorem step_com_mono {P : Params} {s s' : State} (hs : Step P s s') : s.com ≤ s'.com := by
+  cases hs with
+  | commit r hc hr => exact Nat.le_succ _
+  | _ => exact Nat.le_refl _
 
 end Grevm.Sched
